@@ -111,8 +111,9 @@ def get_literal_from_factory(obj: object) -> Optional[str]:
         return None
 
 
-_SINGLETONS = {None, Ellipsis, NotImplemented}
+_SINGLETONS = (None, Ellipsis, NotImplemented)
 
 
 def is_singleton(obj: object) -> bool:
-    return obj in _SINGLETONS or isinstance(obj, (bool, Enum))
+    # identity check: ``obj`` can be unhashable (a list default) or can have a custom ``__eq__``
+    return any(obj is singleton for singleton in _SINGLETONS) or isinstance(obj, (bool, Enum))
